@@ -24,6 +24,8 @@ CONSTS = [
     ("evalCostBits", "8 * sizeof (eval_cost)"),
     ("frameCatch", "FRAME_CATCH"),
     ("frameMask", "FRAME_MASK"),
+    ("intBits", "8 * sizeof (int)"),                        # set_eval_limit: `(int) sp->u.number` (site setLimitCast)
+    ("aggregateCountBits", "8 * sizeof (unsigned short)"),  # F_AGGREGATE: `unsigned short offset` (site aggregateAlloc)
     ("maxSaveDepth", "MAX_SAVE_SVALUE_DEPTH"),
     ("composeDeletedBits", "8 * sizeof (unsigned int)"),   # the type of `deleted` in compose_mapping: site composeDeletedWidth
 ]
@@ -140,6 +142,11 @@ SITES = [
     ("regAssocAlloc", "lib/lpc/array.c", r"allocate_empty_array \(2 \* num_match \+ 1\)", 2, None),
     ("restoreArrayAlloc", "lib/lpc/object.c", r"size = restore_size \(str, 0\)\) < 0\)" + W + r"return ROB_ARRAY_ERROR;" + W + r"v = allocate_array \(size\);", 1, None),
     ("restoreMappingGuard", "lib/lpc/object.c", r"if \(\+\+count > CONFIG_INT \(__MAX_MAPPING_SIZE__\)\)" + W + r"\{.{0,400}?mapping_too_large \(\);", 1, None),
+    ("setLimitCast", "lib/efuns/unsorted.c", r"default:" + W + r"CONFIG_INT \(__MAX_EVAL_COST__\) = \(int\)sp->u.number;" + W + r"if \(CONFIG_INT \(__MAX_EVAL_COST__\) < 1\)", 1, None),
+    ("aggregateAlloc", "src/interpret.c", r"unsigned short offset;.{0,60000}?case F_AGGREGATE:" + W + r"\{" + W + r"array_t \*v;" + W + r"LOAD_SHORT \(offset, pc\);" + W + r"offset \+= \(unsigned short\)num_varargs;" + W + r"num_varargs = 0;" + W + r"v = allocate_empty_array \(\(int\) offset\);", 1, None),
+    ("callbackTickBlock", "src/interpret.c", r"svalue_t\* call_efun_callback \(function_to_call_t \* ftc, int n\) \{" + W + r"svalue_t \*v;" + W + r"(?:/\*.*?\*/)?" + W + r"if \(!--eval_cost\)" + W + r"\{" + W + r"set_error_state \(ES_MAX_EVAL_COST\);" + W + r"eval_cost = CONFIG_INT \(__MAX_EVAL_COST__\);" + W + r"error", 1, None),
+    ("pushSomeChecked", "src/stack.c", r"void push_some_svalues \(svalue_t \* v, int num\) \{" + W + r"STACK_CHECK \(num\);", 1, None),
+    ("transferPushChecked", "src/stack.c", r"void transfer_push_some_svalues \(svalue_t \* v, int num\) \{" + W + r"STACK_CHECK \(num\);", 1, None),
     ("rangeClamp", "lib/lpc/operator.c", r"if \(from < 0\)" + W + r"from = 0;" + W + r"if \(to >= v->size\)" + W + r"to = v->size - 1;" + W + r"if \(to < -1\)" + W + r"to = -1;" + W + r"if \(from > v->size\)" + W + r"from = v->size;", 1, None),
 ]
 
@@ -533,7 +540,7 @@ class C04(Prop):
                 "NV.C04.bridge_stackSlack", "NV.C04.bridge_depthTest", "NV.C04.bridge_clamp", "NV.C04.bridge_safeTick",
                 "NV.C04.bridge_esBits", "NV.C04.bridge_widths",
                 "NV.C04.sizes_bounded_round4", "NV.C04.compose_count_exact", "NV.C04.save_depth_bounded",
-                "NV.C04.loop_iterations_charged", "NV.C04.bridge_backwardOps", "NV.C04.bridge_saveWalk"]
+                "NV.C04.loop_iterations_charged", "NV.C04.bridge_backwardOps", "NV.C04.bridge_saveWalk", "NV.C04.bridge_casts"]
     witness_theorems = ["NV.C04.eval_unbounded_at_zero_budget", "NV.C04.eval_bound_attained_through_safe_apply",
                         "NV.C04.sprintf_exceeds_small_limit", "NV.C04.array_size_wraps",
                         "NV.C04.buffer_size_wraps", "NV.C04.repeat_string_old_wraps",
